@@ -25,6 +25,7 @@ func (m *countedLock) Lock(ctx context.Context) bool {
 	if ctx.Err() != nil {
 		return false
 	}
+	verifYield("lock.prechecked", "")
 	select {
 	case m.ch <- struct{}{}:
 		return true
